@@ -1,5 +1,7 @@
 import TxV.Util.AuditCmd
 import TxV.Props.C04
 import TxV.Props.SourceTie
+import TxV.Props.C04b
 #txv_audit TxV.Props.C04
 #txv_audit TxV.Props.SourceTie
+#txv_audit TxV.Props.C04b
